@@ -98,6 +98,8 @@ def check_aux(rep, m, inb, outb, policy, safe, sig_prefix="C07"):
             continue                      # only reachable under policy none (otherwise the call fails)
         if changed and n in (b"bKGD", b"sBIT", b"hIST"):
             continue
+        if n == b"hIST" and any(x == b"PLTE" for x, _ in ic) and not any(x == b"PLTE" for x, _ in oc):
+            continue                      # the (suggested) palette it refers to is gone: palette changed
         if gray_moved and n in (b"sRGB", b"iCCP"):
             continue
         expected.append([n, d, r])
